@@ -102,6 +102,19 @@ def _run_units(cfg, scratch, support_dir, tier, seed):
             ur = R.run_unit(u, scratch, support_dir, tier, seed + 17 * tries, rlimit=30 * 2 ** tries)
             att = R.attribute(ur)
         ur.attributed = att
+        # thorough: seed stability - the same unit under two other solver seeds; functions whose verdict flips are listed (reported,
+        # not an exit-code matter: the primary run decides)
+        ur.unstable = []
+        if tier == 'thorough' and u in cfg['units']:
+            base = {k: v.get('success') for k, v in ur.functions.items()}
+            for ds in (101, 202):
+                R.snapshot(scratch)
+                try:
+                    u2 = R.run_unit(u, scratch, support_dir, tier, seed + ds)
+                    for k, v in u2.functions.items():
+                        if k in base and base[k] != v.get('success') and k not in ur.unstable: ur.unstable.append(k)
+                except R.Undecided:
+                    ur.unstable.append('(re-run with seed offset %d did not complete)' % ds)
         # vacuity guard (units that carry obligations of this property only)
         ur.vacuous = []; ur.n_canaries = 0
         if u in cfg['units']:
@@ -344,6 +357,7 @@ def _check(prop, cfg, tier, seed, scratch, t0):
         'lemmas': lemma_rows,
         'back_end': 'Verus 0.2026.09.13 / Z3 (one SMT query group per function; obligations = named contract clauses + one implicit group per function (callee preconditions, overflow, bounds, unreachable panics) + proved lemmas)',
         'verus_totals': {u: {'verified': ur.verified, 'errors': ur.nerrors, 'wall_s': round(ur.wall, 2)} for u, ur in results.items()},
+        'unstable_obligations': {u: getattr(ur, 'unstable', []) for u, ur in results.items()},
         'vacuity_guard': {u: {'canaries': getattr(ur, 'n_canaries', 0), 'verified_although_false': [c['fn'] for c in (getattr(ur, 'vacuous', []) or [])]} for u, ur in results.items()},
         'support_crates': {k: {'verified': v['verified'], 'wall_s': v['wall_s']} for k, v in support_res.items()},
         'bounded_standins': [{k: v for k, v in b.items() if k not in ('violations',)} for b in bounded_rows],
